@@ -40,6 +40,7 @@ func registerIntrinsics(p *Program) {
 	registerStringsPkg(p)
 	registerEnv(p)
 	registerMisc(p)
+	registerRegen(p)
 }
 
 func (x *Exec) constStr(v Value, what string) string {
@@ -238,6 +239,10 @@ func (x *Exec) bytesEq(a, b Value) *smt.Term {
 // slices opaque atoms, repeated fields with a length chosen below the bound
 // "list" (each length is a separate path), optional message pointers nil or set.
 func (x *Exec) nondetOfType(label string, t types.Type, depth int) Value {
+	return x.nondetOfTypeOpt(label, t, depth, true)
+}
+
+func (x *Exec) nondetOfTypeOpt(label string, t types.Type, depth int, optional bool) Value {
 	if depth > 6 {
 		x.Unsupported("nondet of type %v: too deep", t)
 	}
@@ -289,7 +294,7 @@ func (x *Exec) nondetOfType(label string, t types.Type, depth int) Value {
 			if tn == "time.Time" || strings.HasSuffix(tn, ".Timestamp") || strings.HasSuffix(tn, ".Duration") {
 				opt = true
 			}
-			if opt && x.Choose(2, label+" nil?") == 1 {
+			if opt && optional && x.Choose(2, label+" nil?") == 1 {
 				x.addNondet(label+".isnil", "choice", B.Int(1))
 				return PtrV{}
 			}
@@ -311,7 +316,8 @@ func (x *Exec) nondetOfType(label string, t types.Type, depth int) Value {
 		x.addNondet(label+".len", "choice", B.Int(int64(n)))
 		es := make([]Value, n)
 		for i := range es {
-			es[i] = x.nondetOfType(fmt.Sprintf("%s[%d]", label, i), u.Elem(), depth+1)
+			// elements of repeated message fields are never nil (protobuf decoding)
+			es[i] = x.nondetOfTypeOpt(fmt.Sprintf("%s[%d]", label, i), u.Elem(), depth+1, false)
 		}
 		if n == 0 {
 			return SliceV{Nil: true}
